@@ -378,12 +378,15 @@ structure Agg where
   as : Bytes
   deriving Repr, Inhabited
 
+/-- Go's math.Max / math.Min: an infinity of the right sign wins even over NaN, then NaN, then ±0 ordering. -/
 def fMax (a b : UInt64) : UInt64 :=
-  if F64.isNaN a || F64.isNaN b then F64.canonNaN
+  if a == 0x7ff0000000000000 || b == 0x7ff0000000000000 then 0x7ff0000000000000
+  else if F64.isNaN a || F64.isNaN b then F64.canonNaN
   else if F64.key a == 0 && F64.key b == 0 then (if F64.sign a then b else a)
   else if F64.key a ≥ F64.key b then a else b
 def fMin (a b : UInt64) : UInt64 :=
-  if F64.isNaN a || F64.isNaN b then F64.canonNaN
+  if a == 0xfff0000000000000 || b == 0xfff0000000000000 then 0xfff0000000000000
+  else if F64.isNaN a || F64.isNaN b then F64.canonNaN
   else if F64.key a == 0 && F64.key b == 0 then (if F64.sign a then a else b)
   else if F64.key a ≤ F64.key b then a else b
 
